@@ -5,6 +5,7 @@ package lucene
 import (
 	"github.com/grindlemire/go-lucene/internal/lex"
 	"github.com/grindlemire/go-lucene/internal/verifspec"
+	"github.com/grindlemire/go-lucene/pkg/driver"
 	"github.com/grindlemire/go-lucene/pkg/lucene/expr"
 	"github.com/grindlemire/go-lucene/pkg/lucene/reduce"
 	"strings"
@@ -205,6 +206,28 @@ func RInv(p *parser, top []any) bool {
 //@   ensures  (err == nil) != (e == nil)
 //@   ensures  err == nil ==> expr.ShapeV(e) && expr.ShapeP(e)
 //@   loop 0: rangeinv PInv(p)
+//@   lemma wf before "err = expr.Validate(ex)": expr.LemmaParsedWF(ex)
+
+// ---- the public wrappers ----------------------------------------------------------------------------
+
+// The package-level driver is built once by NewPostgresDriver during package
+// initialisation and never written afterwards (frame analysis, C14); what
+// NewPostgresDriver builds is a trusted contract (it ranges over a map) that the
+// driver-table audit of the bounded tier re-checks on the real code.
+
+//@ func ToPostgres
+//@   props C10 C01 C13
+//@   requires verifspec.Forall(0, len(opts), func(i int) bool { return opts[i] != nil })
+//@   assumes  driver.Builtin(postgres.Base) && driver.RangAt(postgres.Base)
+//@   ensures[error-means-empty] result1 != nil ==> result0 == ""
+//@   lemma renderable before "return postgres.Render(e)": driver.LemmaParsedRenderable(e)
+
+//@ func ToParameterizedPostgres
+//@   props C10 C01 C13
+//@   requires verifspec.Forall(0, len(opts), func(i int) bool { return opts[i] != nil })
+//@   assumes  driver.Builtin(postgres.Base) && driver.RangAt(postgres.Base)
+//@   ensures[error-means-empty] err != nil ==> s == ""
+//@   lemma renderable before "return postgres.RenderParam(e)": driver.LemmaParsedRenderable(e)
 
 // imports used by the directive comments only
 var (
@@ -212,4 +235,5 @@ var (
 	_ = verifspec.B2I
 	_ = expr.LeafOp
 	_ = reduce.IsTok
+	_ = driver.Exempt
 )
